@@ -144,7 +144,7 @@ pub fn c03_t_nested_frames_depth2() {
 
 #[kani::proof]
 #[kani::unwind(13)]
-pub fn c03_t_nested_frames_depth3() {
+pub fn c03_x_nested_frames_depth3() {
     let ctxt = ArrCtxt::new();
     let other = ArrCtxt::new();
     level(&ctxt, &other, 3, [Val::None; 6], 1);
